@@ -166,7 +166,7 @@ def gen_files(tooldir):
     consts = json.load(open(os.path.join(tooldir, "consts.json")))
     by = {x["site"]: x for x in sites}
     rs = ["(* GENERATED from the live compiled regexps of /repo by gxtool regex + harness/vlib/gen.py. DO NOT EDIT. *)",
-          "From GV Require Import Base.Str Regex.Re.", "Open Scope N_scope.", ""]
+          "From GV Require Import Base.Str Regex.Re.", "Local Open Scope N_scope.", ""]
     for name in sorted(by):
         x = by[name]
         rs.append("(* %s : %s *)" % (name, x["pattern"].replace("*)", "* )").replace("(*", "( *")))
